@@ -95,3 +95,42 @@ W void w_md_parse_variant_f(const unsigned char* in, unsigned n, unsigned shape,
   o->code = unsigned(c); o->consumed = w_md_pos(&d, in); o->found = d.*get(T_found()); o->overflowed = rm.overflowed(); o->max_request = unsigned(arena.max_request);
   observe(v, rm, o);
 }
+// ---- readObject<Filter> / readArray<Filter> steps: filter documents built with the low-level API
+ROB(T_raf, MD, Code (MD::*)(VariantData*, size_t, Filter, NL), template readArray<Filter>)
+ROB(T_rof, MD, Code (MD::*)(VariantData*, size_t, Filter, NL), template readObject<Filter>)
+// (addMember / addElement are cut in the step units, so the filter documents are linked with appendOne / appendPair directly)
+ROB(T_app1, CollectionData, void (CollectionData::*)(Slot<VariantData>, const ResourceManager*), appendOne)
+ROB(T_app2, CollectionData, void (CollectionData::*)(Slot<VariantData>, Slot<VariantData>, const ResourceManager*), appendPair)
+static VariantData* fmember(ObjectData& o, ResourceManager& rm, const char* key) {
+  StringNode* k = rm.saveString(adaptString(key)); auto ks = rm.allocVariant(); auto vs = rm.allocVariant();
+  if (!k || !ks || !vs) return nullptr;
+  ks->setOwnedString(k); (o.*get(T_app2()))(ks, vs, &rm); return vs.ptr();
+}
+static VariantData* felement(ArrayData& a, ResourceManager& rm) { auto s = rm.allocVariant(); if (!s) return nullptr; (a.*get(T_app1()))(s, &rm); return s.ptr(); }
+static void buildF(VariantData& f, ResourceManager& rm, unsigned shape) {
+  VariantData* m;
+  switch (shape) {
+    case 0: f.setBoolean(true); break;                                                              // true
+    case 1: { ObjectData& o = f.toObject(); if ((m = fmember(o, rm, "k"))) m->setBoolean(true); break; }   // {"k":true}
+    case 2: { ObjectData& o = f.toObject(); if ((m = fmember(o, rm, "x"))) m->setBoolean(true); break; }   // {"x":true}
+    case 3: f.toObject(); break;                                                                    // {}
+    case 4: { ObjectData& o = f.toObject(); if ((m = fmember(o, rm, "*"))) m->setBoolean(true); break; }   // {"*":true}
+    case 5: { ArrayData& a = f.toArray(); if ((m = felement(a, rm))) m->setBoolean(true); break; }         // [true]
+    case 6: f.toArray(); break;                                                                     // []
+    default: break;                                                                                 // null
+  }
+}
+W void w_md_read_object_f(const unsigned char* in, unsigned n, size_t count, unsigned char limit, unsigned shape, MOut* o) {
+  arena.reset(0); ResourceManager rm(&arena); MD d(&rm, VReader{in, in + n});
+  farena.reset(0); ResourceManager frm(&farena); VariantData fv; buildF(fv, frm, shape); Filter filter{JsonVariantConst(&fv, &frm)};
+  VariantData v;
+  Code c = (d.*get(T_rof()))(filter.allow() ? &v : nullptr, count, filter, NL(limit));
+  o->code = unsigned(c); o->consumed = w_md_pos(&d, in); o->kind = unsigned(v.type()); o->found = filter.allowObject();
+}
+W void w_md_read_array_f(const unsigned char* in, unsigned n, size_t count, unsigned char limit, unsigned shape, MOut* o) {
+  arena.reset(0); ResourceManager rm(&arena); MD d(&rm, VReader{in, in + n});
+  farena.reset(0); ResourceManager frm(&farena); VariantData fv; buildF(fv, frm, shape); Filter filter{JsonVariantConst(&fv, &frm)};
+  VariantData v;
+  Code c = (d.*get(T_raf()))(filter.allow() ? &v : nullptr, count, filter, NL(limit));
+  o->code = unsigned(c); o->consumed = w_md_pos(&d, in); o->kind = unsigned(v.type()); o->found = filter.allowArray();
+}
